@@ -32,6 +32,8 @@ pub enum Action {
     Step(usize, u8),
     Abandon(usize, u8),
     Lost(usize, u8),
+    /// another implementation writes a version on top of the latest one, in a given style
+    Foreign(Vec<SOp>, u8),
 }
 
 pub fn urg(u: u8) -> SnapshotUrgency {
@@ -63,6 +65,10 @@ pub fn default_pools() -> Pools {
             "y".into(),
             "pending".into(),
             "Zebra \u{1F600} \"q\"".into(),
+            "\u{1}ctl\n\\tab\t \u{10FFFF}\u{e9}\u{4e2d}".into(),
+            // long non-ASCII values: multi-byte characters at every alignment of a large document
+            format!("q{}", "a\u{e9}\u{4e2d}\u{1F600}".repeat(700)),
+            format!("r{}", "\u{43f}\u{440}\u{438}\u{432}\u{435}\u{442} \u{725b}\u{4e73}\u{3001}\u{5375}".repeat(450)),
             big1,
             big2,
             big3,
@@ -286,10 +292,12 @@ impl World {
         match r {
             Req::GetSnapshot => c0("LGetSnapshot"),
             Req::GetChild(v) => ctor("LGetChild", vec![nat(st.vnum(*v).unwrap_or(9999))]),
-            Req::AddVersion(v, seg) => ctor(
-                "LAddVersion",
-                vec![nat(st.vnum(*v).unwrap_or(9999)), list(self.parse_version(seg))],
-            ),
+            Req::AddVersion(v, seg) => {
+                STRICT_WIRE.with(|c| c.set(true));
+                let ops = self.parse_version(seg);
+                STRICT_WIRE.with(|c| c.set(false));
+                ctor("LAddVersion", vec![nat(st.vnum(*v).unwrap_or(9999)), list(ops)])
+            }
             Req::AddSnapshot(v, snap) => ctor(
                 "LAddSnapshot",
                 vec![nat(st.vnum(*v).unwrap_or(9999)), tasks_lit(&self.decode_snapshot(snap))],
@@ -387,15 +395,136 @@ pub fn sync_json_len(o: &Operation) -> usize {
     }
 }
 
+thread_local! {
+    /// when set, versions being parsed must have exactly the documented shape (what replicas send)
+    pub static STRICT_WIRE: std::cell::Cell<bool> = std::cell::Cell::new(false);
+    /// deviations from the documented format found while parsing what replicas sent
+    pub static WIRE_PROBLEMS: std::cell::RefCell<Vec<String>> = std::cell::RefCell::new(vec![]);
+}
+fn wire_problem(s: String) {
+    WIRE_PROBLEMS.with(|w| w.borrow_mut().push(s));
+}
+
+pub fn is_rfc3339_utc(s: &str) -> bool {
+    // YYYY-MM-DDTHH:MM:SS[.fraction]Z
+    let b = s.as_bytes();
+    if b.len() < 20 || *b.last().unwrap() != b'Z' {
+        return false;
+    }
+    let digits = |r: std::ops::Range<usize>| b[r].iter().all(|c| c.is_ascii_digit());
+    if !(digits(0..4) && b[4] == b'-' && digits(5..7) && b[7] == b'-' && digits(8..10) && b[10] == b'T'
+        && digits(11..13) && b[13] == b':' && digits(14..16) && b[16] == b':' && digits(17..19))
+    {
+        return false;
+    }
+    let rest = &b[19..b.len() - 1];
+    rest.is_empty() || (rest[0] == b'.' && rest.len() > 1 && rest[1..].iter().all(|c| c.is_ascii_digit()))
+}
+
+fn json_escape(s: &str, style: u8) -> String {
+    let mut out = String::from("\"");
+    for c in s.chars() {
+        match c {
+            '"' => out.push_str("\\\""),
+            '\\' => out.push_str("\\\\"),
+            '\n' => out.push_str("\\n"),
+            c if (c as u32) < 0x20 => out.push_str(&format!("\\u{:04x}", c as u32)),
+            c if style % 2 == 1 && !c.is_ascii() => {
+                let mut buf = [0u16; 2];
+                for u in c.encode_utf16(&mut buf) {
+                    out.push_str(&format!("\\u{:04x}", u));
+                }
+            }
+            c => out.push(c),
+        }
+    }
+    out.push('"');
+    out
+}
+
+/// a version document as another implementation of docs/sync-protocol.md might write it:
+/// other field orders, other timestamp precisions, escapes, whitespace
+pub fn foreign_version_text(pools: &Pools, ops: &[SOp], style: u8) -> String {
+    let mut parts = vec![];
+    for (k, o) in ops.iter().enumerate() {
+        let st = style as usize + k;
+        parts.push(match o {
+            SOp::Create(u) => format!("{{\"Create\": {{\"uuid\":\"{}\"}}}}", uuid_of(*u)),
+            SOp::Delete(u) => format!("{{\"Delete\":{{ \"uuid\" : \"{}\" }}}}", uuid_of(*u).to_string().to_uppercase()),
+            SOp::Update(u, p, v, t) => {
+                let secs = t.div_euclid(1_000_000_000);
+                let nanos = t.rem_euclid(1_000_000_000);
+                let dt = ts_of(secs * 1_000_000_000);
+                let base = dt.format("%Y-%m-%dT%H:%M:%S").to_string();
+                // the shortest exact fraction, or padded to 9 digits
+                let frac = if nanos == 0 {
+                    if st % 3 == 0 { "".to_string() } else { ".000".to_string() }
+                } else if st % 2 == 0 {
+                    format!(".{:09}", nanos)
+                } else {
+                    format!(".{}", format!("{:09}", nanos).trim_end_matches('0'))
+                };
+                let zone = if st % 4 == 3 { "+00:00" } else { "Z" };
+                let ts = format!("\"{}{}{}\"", base, frac, zone);
+                let fields = vec![
+                    format!("\"uuid\":\"{}\"", uuid_of(*u)),
+                    format!("\"property\":{}", json_escape(&pools.props[*p], style)),
+                    format!("\"value\":{}", match v { Some(v) => json_escape(&pools.values[*v], style), None => "null".to_string() }),
+                    format!("\"timestamp\":{}", ts),
+                ];
+                let order: [usize; 4] = match st % 4 { 0 => [3, 2, 1, 0], 1 => [1, 0, 3, 2], 2 => [2, 3, 0, 1], _ => [0, 1, 2, 3] };
+                let body: Vec<String> = order.iter().map(|i| fields[*i].clone()).collect();
+                format!("{{\"Update\":{{{}}}}}", body.join(", "))
+            }
+            SOp::Undo => unreachable!(),
+        });
+    }
+    format!("{{ \"operations\" : [{}] }}", parts.join(",\n "))
+}
+
 pub fn parse_version_ops(pools: &Pools, seg: &[u8]) -> Vec<SOp> {
-    let s = std::str::from_utf8(seg).expect("version is utf-8");
-    let v: Value = serde_json::from_str(s).expect("version is json");
+    let s = match std::str::from_utf8(seg) {
+        Ok(s) => s,
+        Err(_) => {
+            wire_problem("a version is not UTF-8".into());
+            return vec![];
+        }
+    };
+    let v: Value = match serde_json::from_str(s) {
+        Ok(v) => v,
+        Err(e) => {
+            let tail: String = s.chars().rev().take(40).collect::<Vec<_>>().into_iter().rev().collect();
+            wire_problem(format!("a version is not a JSON document: {e} (it ends with {tail:?})"));
+            return vec![];
+        }
+    };
+    if STRICT_WIRE.with(|c| c.get()) {
+        let top: Vec<&String> = v.as_object().expect("version object").keys().collect();
+        if top != vec!["operations"] {
+            wire_problem(format!("a sent version has top-level fields {top:?}"));
+        }
+    }
     let ops = v.get("operations").expect("operations key").as_array().expect("array");
     let mut out = vec![];
     for o in ops {
         let obj = o.as_object().expect("op object");
         assert_eq!(obj.len(), 1);
         let (k, body) = obj.iter().next().unwrap();
+        if STRICT_WIRE.with(|c| c.get()) {
+            // exactly the documented fields, nothing else
+            let mut keys: Vec<&str> = body.as_object().expect("op body").keys().map(|s| s.as_str()).collect();
+            keys.sort();
+            let want: Vec<&str> = if k == "Update" { vec!["property", "timestamp", "uuid", "value"] } else { vec!["uuid"] };
+            if keys != want {
+                wire_problem(format!("a sent {k} operation has fields {keys:?}, documented: {want:?}"));
+            }
+            if k == "Update" {
+                let ts = body["timestamp"].as_str().unwrap_or("");
+                if !is_rfc3339_utc(ts) {
+                    wire_problem(format!("sent timestamp {ts:?} is not RFC 3339 UTC"));
+                }
+            }
+        }
         let uuid = taskchampion::Uuid::parse_str(body["uuid"].as_str().unwrap()).unwrap();
         let u = uuid_index(uuid, 64).expect("uuid pool");
         out.push(match k.as_str() {
@@ -450,6 +579,7 @@ pub fn action_json(a: &Action) -> Value {
         Action::Step(i, u) => json!({"step": i, "urg": u}),
         Action::Abandon(i, k) => json!({"abandon": i, "kind": k}),
         Action::Lost(i, u) => json!({"lost": i, "urg": u}),
+        Action::Foreign(ops, style) => json!({"foreign": ops.iter().map(opj).collect::<Vec<_>>(), "style": style}),
     }
 }
 
@@ -486,6 +616,11 @@ pub fn action_of_json(v: &Value) -> Action {
         Action::Abandon(us(i), v["kind"].as_u64().unwrap_or(0) as u8)
     } else if let Some(i) = v.get("lost") {
         Action::Lost(us(i), v["urg"].as_u64().unwrap_or(0) as u8)
+    } else if let Some(ops) = v.get("foreign") {
+        match action_of_json(&json!({"commit": 0, "ops": ops})) {
+            Action::Commit(_, o) => Action::Foreign(o, v["style"].as_u64().unwrap_or(0) as u8),
+            _ => unreachable!(),
+        }
     } else {
         panic!("bad action {v}")
     }
@@ -507,6 +642,7 @@ pub struct Runner {
     pub f_faults: usize,
     pub f_snapshots: usize,
     pub f_steps: usize,
+    pub f_foreign: usize,
     cur_sync_pulled: Vec<usize>,
     cur_sync_pushed: Vec<usize>,
     cur_sync_pending: Vec<usize>,
@@ -529,6 +665,7 @@ impl Runner {
             f_faults: 0,
             f_snapshots: 0,
             f_steps: 0,
+            f_foreign: 0,
             cur_sync_pulled: vec![0; n],
             cur_sync_pushed: vec![0; n],
             cur_sync_pending: vec![0; n],
@@ -635,6 +772,7 @@ impl Runner {
 
     pub fn perform(&mut self, a: &Action) {
         self.script.push(action_json(a));
+        crate::util::CURRENT_SCRIPT.with(|c| *c.borrow_mut() = json!({"family": "synchist", "replicas": self.w.n, "actions": self.script}));
         match a {
             Action::Commit(i, ops) => {
                 if self.w.in_flight(*i) {
@@ -682,6 +820,29 @@ impl Runner {
                 if self.w.in_flight(*i) {
                     self.do_step(*i, *u, true);
                 }
+            }
+            Action::Foreign(ops, style) => {
+                let head_state = self.w.replay_chain();
+                let mut t = head_state.clone();
+                let mut valid = vec![];
+                for o in ops {
+                    if *o != SOp::Undo && valid_shadow(&t, o) {
+                        apply_shadow(&mut t, o);
+                        valid.push(o.clone());
+                    }
+                }
+                if valid.is_empty() {
+                    return;
+                }
+                let text = foreign_version_text(&self.w.pools, &valid, *style);
+                {
+                    let mut st = self.w.chain.borrow_mut();
+                    let parent = st.head();
+                    let id = taskchampion::Uuid::from_u128(0xf0e1_0000_0000_4000_8000_0000_0000_0000u128 + st.versions.len() as u128);
+                    st.versions.push((id, parent, text.into_bytes()));
+                }
+                self.f_foreign += 1;
+                self.ev(ctor("EForeign", vec![list(valid.iter().map(|o| sop_value(o).unwrap()).collect())]));
             }
             Action::Abandon(i, kind) => {
                 if self.w.in_flight(*i) {
@@ -739,6 +900,7 @@ impl Runner {
             pend += self.w.num_local(i);
             dump.push(json!(format!("{:?}", t)));
         }
+        WIRE_PROBLEMS.with(|w| self.problems.append(&mut w.borrow_mut()));
         let bad_results: Vec<&(usize, String)> =
             self.sync_results.iter().filter(|(_, r)| r != "ok").collect();
         let ok = all_equal && equal_replay && pend == 0 && bad_results.is_empty() && self.problems.is_empty();
@@ -763,7 +925,7 @@ impl Runner {
             "updates": self.f_ops[2], "undo_points": self.f_ops[3], "syncs": self.f_syncs,
             "concurrent_syncs": self.f_concurrent_syncs, "multibatch_syncs": self.f_multibatch_syncs,
             "rejections": self.f_rejections, "faults": self.f_faults, "snapshots": self.f_snapshots,
-            "requests": self.f_steps,
+            "requests": self.f_steps, "foreign_versions": self.f_foreign,
         });
         CaseOut {
             coq,
@@ -785,6 +947,7 @@ pub struct Gen {
     pub rng: Rng,
     pub small_values: Vec<usize>,
     pub big_values: Vec<usize>,
+    pub mid_values: Vec<usize>,
     times: Vec<i64>,
 }
 
@@ -792,9 +955,12 @@ impl Gen {
     pub fn new(rng: Rng, pools: &Pools) -> Gen {
         let mut small = vec![];
         let mut big = vec![];
+        let mut mid = vec![];
         for (i, v) in pools.values.iter().enumerate() {
-            if v.len() > 1000 {
+            if v.len() > 100_000 {
                 big.push(i)
+            } else if v.len() > 1000 {
+                mid.push(i)
             } else {
                 small.push(i)
             }
@@ -803,6 +969,7 @@ impl Gen {
             rng,
             small_values: small,
             big_values: big,
+            mid_values: mid,
             times: vec![1_000_000_000, 2_000_000_000, 2_000_000_000, 2_000_000_123, 3_500_000_000, 1_700_000_000_250_000_000],
         }
     }
@@ -824,6 +991,8 @@ impl Gen {
                         let p = self.rng.below(3);
                         let v = if self.rng.chance(12) {
                             None
+                        } else if !self.mid_values.is_empty() && self.rng.chance(10) {
+                            Some(self.mid_values[self.rng.below(self.mid_values.len())])
                         } else if !self.big_values.is_empty() && self.rng.chance(big_pct) {
                             Some(self.big_values[self.rng.below(self.big_values.len())])
                         } else {
@@ -1267,4 +1436,60 @@ pub fn gen_orders(seed: u64, id: usize) -> CaseOut {
         conc.push(j["ops"].clone());
     }
     run_orders(&json!({"replicas": n, "prefix": prefix, "concurrent": conc}))
+}
+
+/// snapshots (C12): scripted urgencies, avoid flags, replicas that join late and start from a
+/// snapshot, multi-batch syncs with urgent replies on non-final batches
+pub fn gen_snap(seed: u64, id: usize, max_actions: usize) -> CaseOut {
+    let mut rng = Rng::new(seed ^ (id as u64).wrapping_mul(0x9FB21C651E98DF25) ^ 0x5a9);
+    let n = rng.range(2, 4);
+    let mut r = Runner::new(n);
+    let mut g = Gen::new(rng.fork(), &r.w.pools);
+    let big_pct = if rng.chance(30) { 35 } else { 0 };
+    // the last replica stays untouched until late, so that it starts from a snapshot
+    let late = n - 1;
+    let k = rng.range(3, max_actions);
+    for step in 0..k {
+        let i = if step * 3 < k * 2 { rng.below(n - 1) } else { rng.below(n) };
+        if rng.chance(55) && i != late {
+            let cur = r.w.tasks(i);
+            let ops = g.batch(&cur, 4, big_pct);
+            if !ops.is_empty() {
+                r.perform(&Action::Commit(i, ops));
+            }
+        } else {
+            r.perform(&Action::Sync(i, rng.chance(30), rng.below(3) as u8));
+        }
+    }
+    r.perform(&Action::Sync(late, false, 0));
+    r.quiesce_and_finish(seed, id)
+}
+
+/// the wire format (C14): histories with undo points, deletes of populated tasks, sub-second
+/// timestamps and exotic strings, plus versions written by "another implementation"
+pub fn gen_wire(seed: u64, id: usize, max_actions: usize) -> CaseOut {
+    let mut rng = Rng::new(seed ^ (id as u64).wrapping_mul(0xE7037ED1A0B428DB) ^ 0x14);
+    let n = rng.range(2, 3);
+    let mut r = Runner::new(n);
+    let mut g = Gen::new(rng.fork(), &r.w.pools);
+    let big_pct = if rng.chance(20) { 35 } else { 0 };
+    let k = rng.range(3, max_actions);
+    for _ in 0..k {
+        let i = rng.below(n);
+        let c = rng.below(100);
+        if c < 45 {
+            let cur = r.w.tasks(i);
+            let ops = g.batch(&cur, 5, big_pct);
+            if !ops.is_empty() {
+                r.perform(&Action::Commit(i, ops));
+            }
+        } else if c < 75 {
+            r.perform(&Action::Sync(i, false, 0));
+        } else {
+            let head = r.w.replay_chain();
+            let ops = g.batch(&head, 4, 0);
+            r.perform(&Action::Foreign(ops, rng.below(8) as u8));
+        }
+    }
+    r.quiesce_and_finish(seed, id)
 }
